@@ -628,6 +628,9 @@ func run(sc *Scenario) (st *stats, err error) {
 			st.label("seed-shared")
 		}
 	}
+	if sc.Target != "" {
+		st.label("subscription-names-target")
+	}
 	if sc.Seed != 0 {
 		st.label("seed-global-set")
 	} else {
